@@ -298,6 +298,26 @@ Fixpoint seq_loop (fuel : nat) (up : bool) (n to incr : Z) : list Z :=
 Definition wrap64 (z : Z) : Z := ((z + 9223372036854775808) mod 18446744073709551616 - 9223372036854775808)%Z.
 
 (* the literals a sequence BraceExp produces; Panic where the Go code would index out of range *)
+(* the step of {x..y..n}: |n|, with the int64 corner made explicit, 1 for 0 or no step *)
+Definition seq_step (more : list word) : Z :=
+  match more with
+  | [] => 1%Z
+  | e2 :: _ =>
+      let n := fst (parse_int (word_lit e2)) in
+      let n1 := if (n <? 0)%Z then wrap64 (- n) else n in
+      let n2 := if (n1 <? 0)%Z then MAX64 else n1 in
+      if (n2 =? 0)%Z then 1%Z else n2
+  end.
+Definition seq_fmt (chars : bool) (width : nat) (n : Z) : str :=
+  if chars then rune_str n else if Nat.ltb 0 width then fmt_pad width n else fmt_int n.
+Definition seq_mk (fromLit toLit : str) (more : list word) (chars : bool) (from to : Z) : list str :=
+  let width := if negb chars && (has_leading_zeros fromLit || has_leading_zeros toLit)
+               then Nat.max (length fromLit) (length toLit) else O in
+  let upward := (from <=? to)%Z in
+  let step := seq_step more in
+  let incr := if upward then step else (- step)%Z in
+  map (seq_fmt chars width) (seq_loop (S limit) upward from to incr).
+
 Definition seq_values (es : list word) : res (list str) :=
   match es with
   | e0 :: e1 :: more =>
@@ -305,26 +325,9 @@ Definition seq_values (es : list word) : res (list str) :=
       let toLit := word_lit e1 in
       let '(v1, ok1) := parse_int fromLit in
       let '(v2, ok2) := parse_int toLit in
-      let mk (chars : bool) (from to : Z) : res (list str) :=
-        let width := if negb chars && (has_leading_zeros fromLit || has_leading_zeros toLit)
-                     then Nat.max (length fromLit) (length toLit) else O in
-        let upward := (from <=? to)%Z in
-        let step :=
-          match more with
-          | [] => 1%Z
-          | e2 :: _ =>
-              let n := fst (parse_int (word_lit e2)) in
-              let n1 := if (n <? 0)%Z then wrap64 (- n) else n in
-              let n2 := if (n1 <? 0)%Z then MAX64 else n1 in
-              if (n2 =? 0)%Z then 1%Z else n2
-          end in
-        let incr := if upward then step else (- step)%Z in
-        Ok (map (fun n => if chars then rune_str n
-                          else if Nat.ltb 0 width then fmt_pad width n else fmt_int n)
-                (seq_loop (S limit) upward from to incr)) in
-      if ok1 && ok2 then mk false v1 v2
+      if ok1 && ok2 then Ok (seq_mk fromLit toLit more false v1 v2)
       else match fromLit, toLit with
-           | c1 :: _, c2 :: _ => mk true (Z.of_N c1) (Z.of_N c2)
+           | c1 :: _, c2 :: _ => Ok (seq_mk fromLit toLit more true (Z.of_N c1) (Z.of_N c2))
            | _, _ => Panic
            end
   | _ => Panic
@@ -491,70 +494,90 @@ Fixpoint count_up (k : nat) (start step : Z) : list Z :=
   match k with O => [] | S k' => start :: count_up k' (start + step)%Z step end.
 
 (* expand_seqterm + mkseq, ideal integers, bash's guards explicit *)
+
+(* lhs: a legal number, or one letter : (is_char, value) *)
+Definition lhs_kind (lhs : str) : option (bool * Z) :=
+  let letter := match lhs with [l0] => if ascii_letter l0 then Some (true, Z.of_N l0) else None | _ => None end in
+  match strtoimax lhs with
+  | Some (v, []) => if in64 v then Some (false, v) else letter
+  | _ => letter
+  end.
+
+(* rhs: number or letter, then the rest : (is_char, value, rest, length of the rhs term) *)
+Definition rhs_kind (rhs : str) : option (bool * Z * str * nat) :=
+  match rhs with
+  | [] => None
+  | r0 :: rtl =>
+      if is_digit r0 || (((r0 =? PLUS) || (r0 =? MINUS)) && match rtl with d :: _ => is_digit d | [] => false end) then
+        match strtoimax rhs with
+        | Some (v, ep) =>
+            if in64 v && (match ep with [] => true | e0 :: _ => e0 =? DOT end)
+            then Some (false, v, ep, (length rhs - length ep)%nat) else None
+        | None => None
+        end
+      else if ascii_letter r0 && (match rtl with [] => true | d :: _ => d =? DOT end)
+      then Some (true, Z.of_N r0, rtl, 1%nat)
+      else None
+  end.
+
+(* the optional "..incr" *)
+Definition incr_of (ep : str) : option Z :=
+  match ep with
+  | [] => Some 1%Z
+  | a :: b :: (_ :: _) =>
+      if (a =? DOT) && (b =? DOT) then
+        match strtoimax (tl (tl ep)) with
+        | Some (v, []) => if in64 v then Some v else None
+        | _ => None
+        end
+      else None
+  | _ => None
+  end.
+
+Definition zpad_width (lc : bool) (lhs rhs : str) (rl : nat) : nat :=
+  let ll := length lhs in
+  let l0 := hd 0 lhs in
+  let r0 := hd 0 rhs in
+  let z1 := (Nat.ltb 1 ll && (l0 =? ZERO)) in
+  let z2 := (Nat.ltb 2 ll && (l0 =? MINUS) && match tl lhs with d :: _ => d =? ZERO | [] => false end) in
+  let z3 := (Nat.ltb 1 rl && (r0 =? ZERO)) in
+  let z4 := (Nat.ltb 2 rl && (r0 =? MINUS) && match tl rhs with d :: _ => d =? ZERO | [] => false end) in
+  if negb lc && (z1 || z2 || z3 || z4) then Nat.max ll rl else O.
+
+Definition spec_fmt (lc : bool) (width : nat) (n : Z) : str :=
+  if lc then [Z.to_N n] else if Nat.ltb 0 width then fmt_pad width n else fmt_int n.
+
+Definition seq_guard_hit (lv rv incr1 : Z) : bool :=
+  ((lv <? rv)%Z && (incr1 =? MIN64)%Z)
+  || ((0 <? lv)%Z && (rv <? MIN64 + 3 + lv)%Z) || ((lv <? 0)%Z && (rv >? MAX64 - 2 + lv)%Z).
+
+Definition mkseq (lc : bool) (lv rv incr0 : Z) (width : nat) : seqres :=
+  let incr1 := if (incr0 =? 0)%Z then 1%Z else incr0 in
+  if (lv <? rv)%Z && (incr1 =? MIN64)%Z then SeqGuard
+  else if ((0 <? lv)%Z && (rv <? MIN64 + 3 + lv)%Z) || ((lv <? 0)%Z && (rv >? MAX64 - 2 + lv)%Z) then
+    (if (Z.of_nat limit <=? Z.abs (rv - lv) / Z.abs incr1)%Z then SeqMany else SeqGuard)
+  else
+    let step := Z.abs incr1 in
+    let cnt := (Z.abs (rv - lv) / step)%Z in
+    if (Z.of_nat limit <=? cnt)%Z then SeqMany
+    else
+      let sstep := if (lv <=? rv)%Z then step else (- step)%Z in
+      SeqList (map (spec_fmt lc width) (count_up (S (Z.to_nat cnt)) lv sstep)).
+
 Definition seq_term (text : str) : seqres :=
   match cut_dotdot text with
   | None => NotSeq
   | Some (lhs, rhs) =>
       match lhs, rhs with
       | [], _ | _, [] => NotSeq
-      | l0 :: ltl, r0 :: rtl =>
-          (* lhs: a legal number, or one letter *)
-          let lkind : option (bool * Z) :=   (* (is_char, value) *)
-            match strtoimax lhs with
-            | Some (v, []) => if in64 v then Some (false, v) else
-                                match ltl with [] => if ascii_letter l0 then Some (true, Z.of_N l0) else None | _ => None end
-            | _ => match ltl with [] => if ascii_letter l0 then Some (true, Z.of_N l0) else None | _ => None end
-            end in
-          (* rhs: number or letter, then optional "..incr" *)
-          let rkind : option (bool * Z * str * nat) :=   (* (is_char, value, rest, length of the rhs term) *)
-            if is_digit r0 || (((r0 =? PLUS) || (r0 =? MINUS)) && match rtl with d :: _ => is_digit d | [] => false end) then
-              match strtoimax rhs with
-              | Some (v, ep) =>
-                  if in64 v && (match ep with [] => true | e0 :: _ => e0 =? DOT end)
-                  then Some (false, v, ep, (length rhs - length ep)%nat) else None
-              | None => None
-              end
-            else if ascii_letter r0 && (match rtl with [] => true | d :: _ => d =? DOT end)
-            then Some (true, Z.of_N r0, rtl, 1%nat)
-            else None in
-          match lkind, rkind with
+      | _ :: _, _ :: _ =>
+          match lhs_kind lhs, rhs_kind rhs with
           | Some (lc, lv), Some (rc, rv, ep, rl) =>
-              let incr_opt : option Z :=
-                match ep with
-                | [] => Some 1%Z
-                | a :: b :: (_ :: _) as more =>
-                    if (a =? DOT) && (b =? DOT) then
-                      match strtoimax (tl (tl ep)) with
-                      | Some (v, []) => if in64 v then Some v else None
-                      | _ => None
-                      end
-                    else None
-                | _ => None
-                end in
-              match incr_opt with
+              match incr_of ep with
               | None => NotSeq
               | Some incr0 =>
                   if negb (Bool.eqb lc rc) then NotSeq
-                  else
-                    let ll := length lhs in
-                    let z1 := (Nat.ltb 1 ll && (l0 =? ZERO)) in
-                    let z2 := (Nat.ltb 2 ll && (l0 =? MINUS) && match ltl with d :: _ => d =? ZERO | [] => false end) in
-                    let z3 := (Nat.ltb 1 rl && (r0 =? ZERO)) in
-                    let z4 := (Nat.ltb 2 rl && (r0 =? MINUS) && match rtl with d :: _ => d =? ZERO | [] => false end) in
-                    let width := if negb lc && (z1 || z2 || z3 || z4) then Nat.max ll rl else O in
-                    let incr1 := if (incr0 =? 0)%Z then 1%Z else incr0 in
-                    if (lv <? rv)%Z && (incr1 =? MIN64)%Z then SeqGuard
-                    else if ((0 <? lv)%Z && (rv <? MIN64 + 3 + lv)%Z) || ((lv <? 0)%Z && (rv >? MAX64 - 2 + lv)%Z) then
-                      (if (Z.of_nat limit <=? Z.abs (rv - lv) / Z.abs incr1)%Z then SeqMany else SeqGuard)
-                    else
-                      let step := Z.abs incr1 in
-                      let cnt := (Z.abs (rv - lv) / step)%Z in
-                      if (Z.of_nat limit <=? cnt)%Z then SeqMany
-                      else
-                        let sstep := if (lv <=? rv)%Z then step else (- step)%Z in
-                        SeqList (map (fun n => if lc then [Z.to_N n]
-                                               else if Nat.ltb 0 width then fmt_pad width n else fmt_int n)
-                                     (count_up (S (Z.to_nat cnt)) lv sstep))
+                  else mkseq lc lv rv incr0 (zpad_width lc lhs rhs rl)
               end
           | _, _ => NotSeq
           end
